@@ -106,6 +106,83 @@ THOROUGH_EXTRA = [
     ("three_threads", [b_registry("duckdb", DUCK), b_attr("DuckDB", "duckdb", DUCK), b_transpile(DUCK, "duckdb", "duckdb")]),
 ]
 
+AUTO: list = []   # harnesses generated at run time for call-time writers of shared state (see discover_auto)
+
+
+def all_harnesses():
+    return dict(HARNESSES + THOROUGH_EXTRA + AUTO)
+
+
+def _discover_worker(shard, nshards, writers):
+    """Which dialect-test statements enter a shared-state writer function at CALL time (all dialects are loaded first, so
+    import-time executions of those functions do not count)?"""
+    from vlib import corpus
+    import sqlglot
+    from sqlglot.dialects.dialect import Dialect
+    from sqlglot.errors import SqlglotError
+
+    for d in corpus.all_dialects():
+        Dialect.get_or_raise(d)
+    files = {w[0] for w in writers}
+    hits: dict = {}
+    cur = [None]
+
+    def prof(frame, event, arg):
+        if event == "call":
+            co = frame.f_code
+            if co.co_filename in files and (co.co_filename, co.co_qualname) in writers:
+                hits.setdefault((co.co_filename, co.co_qualname), [])
+                lst = hits[(co.co_filename, co.co_qualname)]
+                if cur[0] not in lst and len(lst) < 3:
+                    lst.append(cur[0])
+
+    stmts = corpus.dialect_test_sql()
+    import logging
+
+    logging.disable(logging.CRITICAL)
+    for i, (d, sql) in enumerate(stmts):
+        if i % nshards != shard:
+            continue
+        cur[0] = (i, d, sql)
+        sys.setprofile(prof)
+        try:
+            sqlglot.transpile(sql, read=d, write=d)
+        except SqlglotError:
+            pass
+        except Exception:
+            pass
+        finally:
+            sys.setprofile(None)
+    return {"hits": [(k, v) for k, v in hits.items()]}
+
+
+def discover_auto(ctx):
+    """One or two harnesses for every function OUTSIDE the hand-selected files that the AST scan (sched.shared_writers) finds
+    writing shared state and that some dialect-test statement reaches at call time: that statement against itself, and against
+    the next statement (another dialect where possible) reaching the same function. Empty on a tree without such functions."""
+    writers = {w for w in sched.shared_writers() if w[0] not in sched.SEL_FILES and not w[1].endswith("__init_subclass__")}
+    if not writers:
+        return {}
+    res = ctx.run_shards(_discover_worker, ctx.jobs, writers)
+    found: dict = {}
+    for k, lst in res.get("hits", []):
+        found.setdefault(tuple(k), []).extend(tuple(x) for x in lst)
+    info = {}
+    for (fn, qn), lst in sorted(found.items()):
+        lst = sorted(set(lst))
+        (_, d1, s1) = lst[0]
+        other = next(((d, s) for _, d, s in lst[1:] if d != d1), None) or next(((d, s) for _, d, s in lst[1:]), None)
+        name = f"auto:{os.path.basename(fn)}:{qn}"
+        AUTO.append((name + ":same", [b_transpile(s1, d1, d1), b_transpile(s1, d1, d1)]))
+        AUTO_SPECS[name + ":same"] = [[s1, d1], [s1, d1]]
+        if other:
+            AUTO.append((name + ":pair", [b_transpile(s1, d1, d1), b_transpile(other[1], other[0], other[0])]))
+            AUTO_SPECS[name + ":pair"] = [[s1, d1], [other[1], other[0]]]
+        info[name] = {"reached_by": [s1[:120]] + ([other[1][:120]] if other else [])}
+    return info
+
+
+AUTO_SPECS: dict = {}
 SHARED_WORDS = ("_classes", "_DISPATCH_CACHE", "TRANSFORMS", "globals()", "sys.modules", "import_module", "_import_lock", "lock")
 
 
@@ -181,7 +258,7 @@ def worker(shard, nshards, units):
         else:
             v["count"] += 1
 
-    allh = dict(HARNESSES + THOROUGH_EXTRA)
+    allh = all_harnesses()
     for i, (hname, first, sch, baseline) in enumerate(units):
         if i % nshards != shard:
             continue
@@ -196,7 +273,10 @@ def run(ctx: Ctx) -> None:
     quick = ctx.quick
     if any(m.startswith("sqlglot.dialects.") and m not in ("sqlglot.dialects.dialect",) for m in sys.modules):
         raise HarnessError("the check process has already imported a dialect module; executions would not start cold")
-    harnesses = HARNESSES + ([] if quick else THOROUGH_EXTRA)
+    auto_info = discover_auto(ctx)
+    harnesses = HARNESSES + ([] if quick else THOROUGH_EXTRA) + AUTO
+    if os.environ.get("VERIF_DEBUG_ONLY"):   # development aid; never set by a registered command
+        harnesses = [h for h in harnesses if os.environ["VERIF_DEBUG_ONLY"] in h[0]]
     units = []
     plan_info = {}
     for hname, bodies in harnesses:
@@ -254,7 +334,7 @@ def run(ctx: Ctx) -> None:
             viol[sig] = v
     for sig, v in sorted(viol.items()):
         ctx.violation("C19|" + sig, f"harness {v['harness']} (thread {v['first']} first), preemption at {v['where']} schedule {v['schedule']}: {v['msg']}",
-                      {"harness": v["harness"], "first": v["first"], "schedule": v["schedule"]}, v["count"])
+                      {"harness": v["harness"], "first": v["first"], "schedule": v["schedule"], "auto": AUTO_SPECS.get(v["harness"])}, v["count"])
     ctx.evidence(
         "model_checking",
         {
@@ -269,6 +349,8 @@ def run(ctx: Ctx) -> None:
                     "); every execution runs to completion. non-trivial = executions in which a preemption was actually taken (the other "
                     "thread ran between two points of the first).",
             "harnesses": plan_info,
+            "shared_state_writers_found_by_ast_scan": sorted(f"{os.path.relpath(f, sched.SQLGLOT)}:{q}" for f, q in sched.shared_writers()),
+            "auto_harnesses": auto_info,
             "distinct_outcomes": len(res["outcomes"]),
             "replays_of_violating_schedules": res["replays"],
             "exhaustive": True,
@@ -280,7 +362,9 @@ def run(ctx: Ctx) -> None:
 
 
 def replay(ctx: Ctx, case: dict) -> bool:
-    allh = dict(HARNESSES + THOROUGH_EXTRA)
+    if case.get("auto"):
+        AUTO.append((case["harness"], [b_transpile(s_, d_, d_) for s_, d_ in case["auto"]]))
+    allh = all_harnesses()
     bodies = allh[case["harness"]]
     baseline = [sched.forked([b], {}, 0)["out"][0] for b in bodies]
     sch = {int(k): v for k, v in case["schedule"].items()}
